@@ -60,13 +60,12 @@ const (
 	_refStartTag = 0x51
 )
 
-// used to ref object,list,map
-type _refElem struct {
-	// record the kind of target, objects are the same only if the address and kind are the same
+// _refKey identifies an encoded object, list or map: objects are the same only if the address and
+// the kind are the same (a slice starts at the address of its first element, a struct at the
+// address of its first field)
+type _refKey struct {
+	addr unsafe.Pointer
 	kind reflect.Kind
-
-	// ref index
-	index int
 }
 
 func refTag(tag byte) bool {
@@ -108,18 +107,15 @@ func (e *Encoder) checkEncodeRefMap(v reflect.Value) (int, bool) {
 		}
 	}
 
-	if elem, ok := e.refMap[addr]; ok {
-		// the array addr is equal to the first elem, which must ignore
-		if elem.kind == kind {
-			// fmt.Printf("-----> find ref: %d, %p, %v, %v\n", elem.index, addr, kind, v)
-			return elem.index, ok
-		}
-		return 0, false
+	key := _refKey{addr, kind}
+	if index, ok := e.refMap[key]; ok {
+		// fmt.Printf("-----> find ref: %d, %p, %v, %v\n", index, addr, kind, v)
+		return index, ok
 	}
 
-	n := len(e.refMap)
-	e.refMap[addr] = _refElem{kind, n}
-	// fmt.Printf("---> add ref: %d, %p, %v, %v\n", n, addr, kind, v)
+	// every container that is written gets the next ordinal, as it does in the decoder
+	e.refMap[key] = len(e.refMap)
+	// fmt.Printf("---> add ref: %d, %p, %v, %v\n", len(e.refMap)-1, addr, kind, v)
 	return 0, false
 }
 
